@@ -386,13 +386,16 @@ Definition so_sync (sd : side) (o : nat) : M unit :=
   | Some r => select_init sd o r ;;; upd_inst sd o (fun i => i_with_expired i false)
   end.
 
-(* expire: drop whatever column attributes are there (a missing one is no error), flag, purge the cache entry --
-   also on an instance that is flagged already (no early return) *)
+(* expire: always drop whatever column attributes are there (a missing one is no error); flag the instance and purge
+   the row's cache entry only if it was not flagged already (an instance that is expired already left the cache then;
+   the row's entry may be another instance's by now) *)
 Definition so_expire (sd : side) (o : nat) : M unit :=
   i <- gets (fun s => get_inst s sd o) ;;
   upd_inst sd o (fun i => i_with_vals i (map (fun _ => None) (i_vals i))) ;;;
-  upd_inst sd o (fun i => i_with_expired i true) ;;;
-  cache_expire sd (i_id i).
+  if i_expired i then ret tt
+  else
+    upd_inst sd o (fun i => i_with_expired i true) ;;;
+    cache_expire sd (i_id i).
 
 (* destroySelf: Transaction._SO_delete notes the id before it sends the DELETE *)
 Definition so_destroy (sd : side) (o : nat) : M unit :=
